@@ -704,3 +704,127 @@ Proof.
 Qed.
 
 (* ================================================================== *)
+(* 5. the faithful model violates the property on each known-finding class *)
+(* ================================================================== *)
+Lemma refute_dup : forall c M k n l,
+  set_meaning c = Some M -> nodupb veq l = false -> ~ C14_spec c (SSet k n l).
+Proof.
+  intros c M k n l Hm Hn H. unfold C14_spec in H. rewrite Hm in H.
+  destruct H as [(k' & n' & l' & Heq & Hg)|(Heq & _)]; [|discriminate].
+  inversion Heq; subst. destruct Hg as (Hnd & _). apply vnodupb_NoDupA in Hnd. congruence.
+Qed.
+
+Lemma refute_kinds : forall c M k n l x y,
+  set_meaning c = Some M -> In x l -> In y l -> kind_text x <> kind_text y -> ~ C14_spec c (SSet k n l).
+Proof.
+  intros c M k n l x y Hm Hx Hy Hk H. unfold C14_spec in H. rewrite Hm in H.
+  destruct H as [(k' & n' & l' & Heq & Hg)|(Heq & _)]; [|discriminate].
+  inversion Heq; subst. destruct Hg as (_ & _ & _ & Hkk & _).
+  destruct (Hkk x Hx) as [Hx' _]. destruct (Hkk y Hy) as [Hy' _]. congruence.
+Qed.
+
+Definition f64_1 : val := VFlt "f64" 4607182418800017408.
+Definition f64_2 : val := VFlt "f64" 4611686018427387904.
+Definition f64_pz : val := VFlt "f64" 0.
+Definition f64_nz : val := VFlt "f64" 9223372036854775808.
+
+(* {{1,2},{2,1}} *)
+Definition wit_nested : case :=
+  CLit false [annot (VSet "" 0 [f64_1; f64_2]); annot (VSet "" 0 [f64_2; f64_1])].
+(* {0.0, -0.0} *)
+Definition wit_zero : case := CLit false [f64_pz; f64_nz].
+(* {1} ∪ {"a"} *)
+Definition wit_mixed : case := CBin OUnion false false [f64_1] [VStr "a"].
+(* a := 1; A := {a}; B := {1}; A ∪ B *)
+Definition wit_var : case := CBin OUnion true false [f64_1] [f64_1].
+
+Lemma refuted_nested_set_order :
+  exists o, wf_case wit_nested = true /\ kf_class wit_nested = Some "nested-set-order" /\
+            faithful wit_nested = Some o /\ ~ C14_spec wit_nested o.
+Proof.
+  eexists. split; [vm_compute; reflexivity|]. split; [vm_compute; reflexivity|].
+  split; [vm_compute; reflexivity|]. eapply refute_dup; [reflexivity | vm_compute; reflexivity].
+Qed.
+
+Lemma refuted_signed_zero :
+  exists o, wf_case wit_zero = true /\ kf_class wit_zero = Some "signed-zero" /\
+            faithful wit_zero = Some o /\ ~ C14_spec wit_zero o.
+Proof.
+  eexists. split; [vm_compute; reflexivity|]. split; [vm_compute; reflexivity|].
+  split; [vm_compute; reflexivity|]. eapply refute_dup; [reflexivity | vm_compute; reflexivity].
+Qed.
+
+Lemma refuted_mixed_kind_operands :
+  exists o, wf_case wit_mixed = true /\ kf_class wit_mixed = Some "mixed-kind-operands" /\
+            faithful wit_mixed = Some o /\ ~ C14_spec wit_mixed o.
+Proof.
+  eexists. split; [vm_compute; reflexivity|]. split; [vm_compute; reflexivity|].
+  split; [vm_compute; reflexivity|].
+  eapply (refute_kinds _ _ _ _ _ f64_1 (VStr "a")); [reflexivity | left; reflexivity | right; left; reflexivity | discriminate].
+Qed.
+
+Lemma refuted_variable_elements :
+  exists o, wf_case wit_var = true /\ kf_class wit_var = Some "variable-elements" /\
+            faithful wit_var = Some o /\ ~ C14_spec wit_var o.
+Proof.
+  eexists. split; [vm_compute; reflexivity|]. split; [vm_compute; reflexivity|].
+  split; [vm_compute; reflexivity|]. eapply refute_dup; [reflexivity | vm_compute; reflexivity].
+Qed.
+
+(* ================================================================== *)
+(* 6. results do not depend on the order (or repetition) in which elements were written *)
+(* ================================================================== *)
+Lemma vmemb_perm : forall v l l', Permutation l l' -> memb veq v l = memb veq v l'.
+Proof. intros. apply memb_perm. assumption. Qed.
+
+Lemma vsubset_ext : forall a a' b b',
+  (forall v, memb veq v a = memb veq v a') -> (forall v, memb veq v b = memb veq v b') ->
+  subset veq a b = subset veq a' b'.
+Proof. intros; apply subset_ext; try veq_hyps; assumption. Qed.
+
+Lemma set_op_nodup : forall o a b, nodupb veq (set_op o a b) = true.
+Proof. intros [] a b; apply vnodupb_of_list. Qed.
+
+Lemma set_op_ext : forall o a a' b b',
+  (forall v, memb veq v a = memb veq v a') -> (forall v, memb veq v b = memb veq v b') ->
+  forall v, memb veq v (set_op o a b) = memb veq v (set_op o a' b').
+Proof.
+  intros o a a' b b' Ha Hb v. destruct o; cbn [set_op].
+  - rewrite !vmemb_union. congruence.
+  - rewrite !vmemb_inter. congruence.
+  - rewrite !vmemb_diff. congruence.
+  - rewrite !vmemb_symdiff. congruence.
+Qed.
+
+Lemma rel_op_ext : forall r a a' b b',
+  (forall v, memb veq v a = memb veq v a') -> (forall v, memb veq v b = memb veq v b') ->
+  rel_op r a b = rel_op r a' b'.
+Proof.
+  intros r a a' b b' Ha Hb. destruct r; cbn [rel_op]; unfold psuperset, superset, psubset.
+  - apply vsubset_ext; assumption.
+  - rewrite (vsubset_ext a a' b b' Ha Hb), (vsubset_ext b b' a a' Hb Ha). reflexivity.
+  - apply vsubset_ext; assumption.
+  - rewrite (vsubset_ext a a' b b' Ha Hb), (vsubset_ext b b' a a' Hb Ha). reflexivity.
+Qed.
+
+Lemma order_irrelevant_ops : forall o a a' b b', Permutation a a' -> Permutation b b' ->
+  (forall v, memb veq v (set_op o (of_list veq a) (of_list veq b)) =
+             memb veq v (set_op o (of_list veq a') (of_list veq b'))) /\
+  List.length (set_op o (of_list veq a) (of_list veq b)) = List.length (set_op o (of_list veq a') (of_list veq b')).
+Proof.
+  intros o a a' b b' Ha Hb.
+  assert (H : forall v, memb veq v (set_op o (of_list veq a) (of_list veq b)) =
+                        memb veq v (set_op o (of_list veq a') (of_list veq b'))).
+  { apply set_op_ext; intros v; apply vof_list_perm_elems; assumption. }
+  split; [exact H|]. apply vsame_elems_length; try apply set_op_nodup. exact H.
+Qed.
+
+Lemma order_irrelevant_rels : forall r a a' b b', Permutation a a' -> Permutation b b' ->
+  rel_op r (of_list veq a) (of_list veq b) = rel_op r (of_list veq a') (of_list veq b').
+Proof. intros. apply rel_op_ext; intros v; apply vof_list_perm_elems; assumption. Qed.
+
+Lemma order_irrelevant_mem : forall x a a', Permutation a a' ->
+  memb veq x (of_list veq a) = memb veq x (of_list veq a').
+Proof. intros. apply vof_list_perm_elems. assumption. Qed.
+
+(* ================================================================== *)
